@@ -274,16 +274,16 @@ namespace tc {
     }
 
     // the same for wide_integer<D, int> (cnl::to_chars does not compile for multi-limb unsigned wide integers):
-    // values are named, not printed: max, -max (the most negative value is outside the documented domain), 1, -1, half
+    // values are named, not printed: max, -max, lowest (the most negative value, -2^D), 1, -1, half
     template<int D, int Base>
     void fixbw_one()
     {
         using W = cnl::wide_integer<D, int>;
         W const mx = std::numeric_limits<W>::max();
         W const half = W(mx >> 1) + W(1);
-        W const vs[] = {mx, W(-mx), W(1), W(-1), half, W(-half)};
-        char const* names[] = {"max", "-max", "1", "-1", "half", "-half"};
-        for (int k = 0; k < 6; ++k) {
+        W const vs[] = {mx, W(-mx), W(1), W(-1), half, W(-half), std::numeric_limits<W>::lowest()};
+        char const* names[] = {"max", "-max", "1", "-1", "half", "-half", "lowest"};
+        for (int k = 0; k < 7; ++k) {
             printf("%s fixbw %d %d %s => ", table, D, Base, names[k]);
             fixb_run<Base>(vs[k]);
         }
